@@ -349,4 +349,25 @@ def soloPick (s : S) (rnd : Nat) : Option S :=
   | none => none
   | some s1 => soloRun rnd (2 * (s.polls.length + s.numLoops) + 16) s1
 
+/-- `manager.Close()` called by a single goroutine on a quiescent manager -/
+def closeAll (s : S) : S :=
+  { s with closed := s.closed ++ s.polls, numLoops := 0, bal := none, polls := [] }
+
+/-- run the goroutine at runner position 0 through `Run` (fuel = number of steps allowed) -/
+def runToEnd : Nat → S → Option S
+  | 0, _ => none
+  | fuel + 1, s =>
+    if s.runners.length = 0 then some s
+    else match step s (.run 0 false) with
+      | none => none
+      | some s' => runToEnd fuel s'
+
+/-- `manager.Reset()` by a single goroutine on a quiescent manager: close every poller, `m.polls = nil`,
+then `Run()`; `status` is not touched.  `none` = `Run` panics (nil balancer). -/
+def resetSeq (s : S) : Option S :=
+  let s1 := { s with closed := s.closed ++ s.polls, polls := [], runners := [{ pc := .load }] }
+  match runToEnd (2 * s.numLoops + 8) s1 with
+  | none => none
+  | some s2 => if s2.panics = s.panics then some { s2 with cCas2 := s.cCas2 } else none
+
 end Netpoll.Manager
